@@ -191,22 +191,24 @@ theorem poll_idempotent_on_duplicates (d : Def) (now seed ts : Nat) (c : Store) 
 theorem replica_converges_partial (d : Def) (K : VP → Prop) (hK : IdFun K) (w : World) (hw : Reach factCfg d K w)
     (p1 p2 : List VP → List VP) (hp1 : ∀ l, (p1 l).Perm l) (hp2 : ∀ l, (p2 l).Perm l) :
     let w2 := poll factCfg d (poll factCfg d w p1) p2
-    w2.S = w.S ∧ w2.t = w.t ∧ LiveEq w2.S w2.C w2.t ∧ (w2.C.seed = w2.S.seed ∨ w2.C.seed = 0) := by
+    w2.S = w.S ∧ w2.t = w.t ∧ LiveEq w2.S w2.C w2.t ∧ w2.C.seed = w2.S.seed := by
   intro w2
   have h := winv_reach hK factCfg factCfg_serviceFirst factCfg_restartOnWipe d hw
-  obtain ⟨a, b, c, e⟩ := converge_two hK factCfg factCfg_serviceFirst factCfg_restartOnWipe d w p1 p2 hp1 hp2 h
+  obtain ⟨a, b, c, _⟩ := converge_two hK factCfg factCfg_serviceFirst factCfg_restartOnWipe d w p1 p2 hp1 hp2 h
+  have e := converge_two_seed hK factCfg factCfg_serviceFirst factCfg_restartOnWipe d w p1 p2 hp1 hp2 h
   refine ⟨a, b, ?_, ?_⟩
   · show LiveEq w2.S w2.C w2.t
     rw [a, b]; exact c
-  · show w2.C.seed = w2.S.seed ∨ w2.C.seed = 0
+  · show w2.C.seed = w2.S.seed
     rw [a]; exact e
 
 theorem replica_converges_same_seed (d : Def) (K : VP → Prop) (hK : IdFun K) (w : World) (hw : Reach factCfg d K w)
     (p : List VP → List VP) (hp : ∀ l, (p l).Perm l) (hseed : w.C.seed = w.S.seed ∨ w.C.seed = 0) :
-    LiveEq w.S (poll factCfg d w p).C w.t ∧ (poll factCfg d w p).S = w.S ∧ (poll factCfg d w p).t = w.t := by
+    LiveEq w.S (poll factCfg d w p).C w.t ∧ (poll factCfg d w p).S = w.S ∧ (poll factCfg d w p).t = w.t ∧
+    (poll factCfg d w p).C.seed = w.S.seed := by
   have h := winv_reach hK factCfg factCfg_serviceFirst factCfg_restartOnWipe d hw
   obtain ⟨a, b, c, _⟩ := converge_one hK factCfg factCfg_serviceFirst factCfg_restartOnWipe d w p hp h hseed
-  exact ⟨c, a, b⟩
+  exact ⟨c, a, b, converge_one_seed factCfg factCfg_serviceFirst factCfg_restartOnWipe d w p hp h hseed⟩
 
 /-- **reset_restarts.** A poll that meets another seed than the replica's leaves the replica EMPTY with timestamp 0
     and the new seed, whatever the response contained; the next `get` therefore asks for everything after 0. -/
@@ -360,5 +362,19 @@ example : exWorld.S.rows.map (fun r => (r.ts, r.subject, r.id)) = [(2, "b", "v2"
 
 /-- search returns something: both rows were verified by the client itself -/
 example : (exWorld.C.search exWorld.t).length = 2 := by decide
+
+
+/-- `poll_idempotent_on_duplicates` applies: a response made of a presentation the replica holds -/
+example : ∀ vp ∈ [exVP "a" "v1" 100], ∃ subj id e, VPWF vp subj id e ∧ exWorld.C.hasKey subj id = true := by
+  intro vp hvp
+  simp only [List.mem_singleton] at hvp
+  subst hvp
+  exact ⟨"a", "v1", 100, ⟨⟨"example", rfl⟩, rfl, rfl, rfl⟩, by decide⟩
+
+/-- `reset_restarts` applies: after a reset and a new first registration the replica's seed is another one -/
+def exResetWorld : World := run factCfg exDef { t := 10 }
+  [.register (exVP "a" "v1" 100), .pollA, .pollB id, .reset, .register (exVP "b" "v2" 110), .pollA]
+example : exResetWorld.C.seed ≠ exResetWorld.S.seed ∧ exResetWorld.C.seed ≠ 0 ∧ exResetWorld.S.seed ≠ 0 ∧
+    exResetWorld.pending.isSome = true := by decide
 
 end Nuts.C16.Props
